@@ -57,6 +57,13 @@ def gen_cases(rng, tier):
             {"in": [keys, []], "progs": progs, "sseed": rng.randrange(1 << 30), "threadlocal": tl,
              "model": not tl, "kind": "threadlocal" if tl else "scopefunc"}
         )
+    # thread generations (oracle-only): threads of a later generation are born after the earlier ones have exited
+    # (the OS recycles thread identifiers); a new thread is a new scope and must never see an earlier thread's session
+    for _ in range(60 if tier == "thorough" else 12):
+        nth = rng.randint(2, 4)
+        progs = ["".join(rng.choice("gggpr") for _ in range(rng.randint(1, 4))) for _ in range(nth)]
+        cases.append({"in": [list(range(nth)), []], "progs": progs, "sseed": rng.randrange(1 << 30), "threadlocal": True,
+                      "gens": rng.randint(3, 8), "model": False, "kind": "threadlocal-generations"})
     return cases
 
 
@@ -87,6 +94,7 @@ def _run(c):
     keys = c["in"][0]
     rng = random.Random(c["sseed"])
     sched = Sched(rng)
+    gen = [0]
     raw = []
     sid = {}
     owner = {}
@@ -136,14 +144,14 @@ def _run(c):
         me = nextid[0]
         nextid[0] += 1
         sid[id(s)] = me
-        owner[me] = keys[tid()] if not c.get("threadlocal") else ("t", tid())
+        owner[me] = keys[tid()] if not c.get("threadlocal") else ("t", gen[0], tid())
         raw.append([4, tid(), me])
         orig_close = s.close
 
         def tclose():
             raw.append([6, tid(), me])
             closed.append(me)
-            mykey = keys[tid()] if not c.get("threadlocal") else ("t", tid())
+            mykey = keys[tid()] if not c.get("threadlocal") else ("t", gen[0], tid())
             if owner[me] != mykey:
                 viol.append("remove() in scope %r closed session %d created for scope %r" % (mykey, me, owner[me]))
             return orig_close()
@@ -165,7 +173,7 @@ def _run(c):
 
     def fn_for(prog):
         def fn(w):
-            mykey = keys[w.tid] if not c.get("threadlocal") else ("t", w.tid)
+            mykey = keys[w.tid] if not c.get("threadlocal") else ("t", gen[0], w.tid)
             for op in prog:
                 sched.yield_()
                 if op in "gp":
@@ -186,22 +194,38 @@ def _run(c):
                     raw.append([1, w.tid])
                     epoch[mykey] = epoch.get(mykey, 0) + 1
                     inprog[mykey] = inprog.get(mykey, 0) + 1
+                    mark = len(raw)
+                    cur_tl = None
+                    if c.get("threadlocal") and hasattr(ss.registry.registry, "value"):
+                        cur_tl = sid.get(id(ss.registry.registry.value))
                     ss.remove()
+                    # "remove() closes and discards": the session remove() itself took out of the registry
+                    # (a getitem event of this thread inside the call / the thread-local value) must have been closed
+                    taken = [e[2] for e in raw[mark:] if e[0] == 3 and e[1] == w.tid and e[2] is not None]
+                    if cur_tl is not None:
+                        taken.append(cur_tl)
+                    for me in taken:
+                        if not any(e[0] == 6 and e[1] == w.tid and e[2] == me for e in raw[mark:]):
+                            viol.append("remove() in scope %r discarded session %d without closing it" % (mykey, me))
                     inprog[mykey] -= 1
                     epoch[mykey] += 1
 
         return fn
 
-    for p in c["progs"]:
-        sched.spawn(fn_for(p))
     err = None
-    try:
-        sched.run()
-    except Deadlock as e:
-        err = str(e)
-    for w in sched.workers:
-        if w.error is not None and err is None:
-            err = "worker %d: %s: %s" % (w.tid, type(w.error).__name__, w.error)
+    for g in range(c.get("gens", 1)):
+        if g:
+            gen[0] = g
+            sched = Sched(rng)  # new threads; the previous generation's threads have exited
+        for p in c["progs"]:
+            sched.spawn(fn_for(p))
+        try:
+            sched.run()
+        except Deadlock as e:
+            err = str(e)
+        for w in sched.workers:
+            if w.error is not None and err is None:
+                err = "worker %d: %s: %s" % (w.tid, type(w.error).__name__, w.error)
     if err:
         raise AssertionError(err)
     if c.get("threadlocal"):
